@@ -107,6 +107,16 @@ int main(void) {
 #if HAS_W
   START(T_W)(GATE ? &TD_E : &TD_W, HAS_L ? 2 : 1);
 #endif
+#ifdef PROBE
+  VP_RUNT(vp_thr_entrant_a, 0)
+#if PROBE > 1
+  VP_RUNT(T_L, 1)
+#endif
+#if PROBE > 2
+  VP_RUNT(vp_thr_entrant_a, 0)
+#endif
+  VP_REACHED(); return 0;
+#endif
   for (int r = 0; r < ROUNDS; r++) {
     VP_RUNT(vp_thr_entrant_a, 0)
 #if HAS_L
